@@ -1,8 +1,17 @@
 ---------------------------- MODULE MC_BlockValidity ----------------------------
 EXTENDS BlockValidity
 
-Cfg(id, power, last, maxMal, maxHdr, classes) ==
-  [id |-> id, n |-> Len(power), power |-> power, last |-> last, maxMal |-> maxMal, maxHdr |-> maxHdr, classes |-> classes]
+SumSeq(q) == LET RECURSIVE S(_)
+                 S(k) == IF k = 0 THEN 0 ELSE q[k] + S(k - 1)
+             IN S(Len(q))
+
+(* nextra = power of validators of the next set that have no slot in the commit (an added validator) *)
+CfgH(id, power, last, maxMal, maxHdr, classes, hist, npower, nextra) ==
+  [id |-> id, n |-> Len(power), power |-> power, last |-> last, maxMal |-> maxMal, maxHdr |-> maxHdr, classes |-> classes,
+   hist |-> hist, npower |-> npower, ntotal |-> SumSeq(npower) + nextra,
+   nsize |-> Cardinality({k \in 1..Len(npower) : npower[k] > 0}) + (IF nextra > 0 THEN 1 ELSE 0)]
+
+Cfg(id, power, last, maxMal, maxHdr, classes) == CfgH(id, power, last, maxMal, maxHdr, classes, "none", power, 0)
 
 All  == SlotClasses
 Core == SlotClasses \ {"nilSignedByOther", "otherBlockSignedByOther"}
@@ -19,6 +28,13 @@ S3  == Cfg("s3", <<1, 2, 2>>,    1, 3, 0, All)
 N4  == Cfg("n4", <<2, 2, 2, 1>>, 2, 2, 2, All)
 P2  == Cfg("p2", <<1, 1>>,       1, 2, 1, All)
 V5  == Cfg("v5", <<1, 1, 1, 1, 1>>, 1, 2, 0, Core)
+(* validator-set histories: block `last` changes the set of height last+1 (the driver's application does it in
+   EndBlock like plugin.AdminOp.updateValidators); the commit for block `last` is still the old set's business *)
+Few == {"missing", "nilvote", "otherBlock", "badSig"}
+VL  == CfgH("vl", <<7, 1, 1, 1>>, 1, 3, 0, Few, "lower",  <<1, 1, 1, 1>>, 0)
+VR  == CfgH("vr", <<2, 2, 2, 1>>, 1, 3, 0, Few, "raise",  <<2, 2, 2, 7>>, 0)
+VA  == CfgH("va", <<2, 2, 2, 1>>, 1, 3, 0, Few, "add",    <<2, 2, 2, 1>>, 1)
+VM  == CfgH("vm", <<2, 2, 2, 1>>, 1, 3, 0, Few, "remove", <<2, 2, 2, 0>>, 0)
 (* every commit over 4 slots (13^4), unequal powers; <= 3 bad slots of 4, equal powers; <= 3 malformations anywhere;
    totals 4 and 6 *)
 S4  == Cfg("s4",  <<3, 2, 2, 1>>, 2, 4, 0, Core)
@@ -29,7 +45,8 @@ S6  == Cfg("s6",  <<1, 2, 3>>,    1, 3, 0, Core)
 (* sanity run *)
 O1  == Cfg("o1",  <<1, 1, 2>>,    2, 1, 1, All)
 
-QuickConfigs    == {Q2, H1, S3, N4, P2, V5}
+QuickConfigs    == {Q2, H1, S3, N4, P2, V5, VL, VR, VA, VM}
 ThoroughConfigs == {S4, S4E, M3, Q4, S6}
 SanityConfigs   == {O1}
+HistoryConfigs  == {VL, VR, VA, VM}
 =================================================================================
